@@ -236,8 +236,9 @@ def walk_oracle(data, ans, hist=None):
                 if r is None:
                     continue
                 if r == "last-or-;":        # `import {..} from a.b.c` ends at its path, `...;` at the semicolon
-                    if kids and b != kids[-1][3] and not (data[a:b].endswith(b";") and not data[kids[-1][3]:b - 1].strip(WS)):
-                        bad.append(f"{kind} {sp} ends neither at its module path ({kids[-1][4]}) nor at a `;` directly after it")
+                    gap = re.sub(rb"/\*.*?\*/|//[^\n]*|\s+", b"", data[kids[-1][3]:b - 1], flags=re.S) if kids else b""
+                    if kids and b != kids[-1][3] and not (data[a:b].endswith(b";") and not gap):
+                        bad.append(f"{kind} {sp} ends neither at its module path ({kids[-1][4]}) nor at a `;` that follows it (only whitespace / comments in between)")
                 elif r in ("first", "last"):
                     if kids:
                         want = kids[0][2] if side == 0 else kids[-1][3]
